@@ -102,7 +102,11 @@ func verifHistory(kind int) {
 	s := &verifShadow{}
 	steps := verifBound("steps", 2)
 	for i := 0; i < steps; i++ {
-		switch verifChoice("op", verifBound("ops", 6)) {
+		op := verifChoice("op", verifBound("ops", 6))
+		if verifHistOps != nil {
+			op = verifHistOps[op]
+		}
+		switch op {
 		case 0: // Add
 			x := verifHistValue()
 			want := s.add(x)
